@@ -26,9 +26,10 @@ CRATES = {
     "sos_protocol": ("sos-protocol", "crates/protocol", "files"),
     "sos_search": ("sos-search", "crates/search"),
     "sos_server": ("sos-server", "crates/server"),
-    "sos_backend": ("sos-backend", "crates/backend"),
-    "sos_server_storage": ("sos-server-storage", "crates/storage/server"),
-    "sos_sync": ("sos-sync", "crates/sync"),
+    "sos_backend": ("sos-backend", "crates/backend", "files"),
+    "sos_server_storage": ("sos-server-storage", "crates/storage/server", "files"),
+    "sos_sync": ("sos-sync", "crates/sync", "files"),
+    "sos_client_storage": ("sos-client-storage", "crates/storage/client", "files,search"),
     "sos_integrity": ("sos-integrity", "crates/integrity", "files"),
     "sos_database": ("sos-database", "crates/database", "files"),
 }
